@@ -17,6 +17,7 @@ import random
 import gens
 from gens import NAMES, FUNCS, TYPES, CMP_OPS, ARITH_OPS, JOINS, WS_CHOICES
 
+# 'EXCEPT ALL' is EXCEPT followed by the quantifier: the clause ends at EXCEPT whatever follows it
 CLOSERS = ['ORDER BY', 'GROUP BY', 'LIMIT', 'UNION', 'UNION ALL', 'EXCEPT', 'HAVING', 'RETURNING', 'INTO']
 UNITS = ['DAY', 'HOUR', 'MINUTE', 'MONTH', 'SECOND', 'YEAR']
 COND_TAGS = ('cmp', 'isnull', 'between', 'inlist', 'bool', 'exists')
@@ -228,7 +229,7 @@ class AstGen:
             if self.r.random() < 0.2:
                 s['limit'] = self.number()
         if self.r.random() < 0.12 and d < self.max_depth:
-            op = self.r.choice(['UNION', 'UNION ALL', 'EXCEPT', 'INTERSECT'])
+            op = self.r.choice(['UNION', 'UNION ALL', 'EXCEPT', 'EXCEPT ALL', 'INTERSECT'])
             s['setop'] = [op, self.select(d + 1)]
         return s
 
@@ -271,12 +272,12 @@ class AstGen:
     def where_family(self):
         """SELECT items FROM t WHERE <cond> [<follower>], nested 0..2 levels in FROM / WHERE-IN / EXISTS
         subqueries; follower: every closing keyword of the property (and the set operators that are not)."""
-        fol = self.r.choice([None, 'GROUP BY', 'ORDER BY', 'LIMIT', 'UNION', 'UNION ALL', 'EXCEPT', 'HAVING',
+        fol = self.r.choice([None, 'GROUP BY', 'ORDER BY', 'LIMIT', 'UNION', 'UNION ALL', 'EXCEPT', 'EXCEPT ALL', 'HAVING',
                              'RETURNING', 'INTO', 'INTERSECT', 'MINUS', 'OFFSET', 'FOR UPDATE', 'WINDOW', 'FETCH'])
         q = {'t': 'select', 'distinct': False, 'items': [self.select_item(1) for _ in range(self.r.choice([1, 2]))],
              'from': {'refs': [self.table_ref(self.max_depth)], 'seps': []}, 'where': self.cond(self.r.choice([0, 1])),
              'group': None, 'order': None, 'limit': None, 'setop': None, 'follow': None, 'respell': None}
-        if fol in ('UNION', 'UNION ALL', 'EXCEPT', 'INTERSECT', 'MINUS'):
+        if fol in ('UNION', 'UNION ALL', 'EXCEPT', 'EXCEPT ALL', 'INTERSECT', 'MINUS'):
             rhs = {'t': 'select', 'distinct': False, 'items': [self.select_item(2)],
                    'from': {'refs': [self.table_ref(self.max_depth)], 'seps': []},
                    'where': self.cond(2) if self.r.random() < 0.5 else None,
@@ -818,7 +819,13 @@ class Renderer:
         so = q.get('setop')
         if so:
             self.ws1()
-            self.closer(so[0], q.get('respell') if so[0] == 'UNION ALL' else None)
+            if so[0] == 'EXCEPT ALL':
+                # EXCEPT followed by the quantifier ALL: two keyword tokens; the clause ends at EXCEPT
+                self.closer('EXCEPT')
+                self.ws1()
+                self.kw('ALL')
+            else:
+                self.closer(so[0], q.get('respell') if so[0] == 'UNION ALL' else None)
             self.ws1()
             self.select(so[1])
 
